@@ -103,7 +103,7 @@ fn pre_from(s: &str) -> Pre {
 }
 
 impl SetSpec {
-    fn to_json(&self) -> Value {
+    pub fn to_json(&self) -> Value {
         match self {
             SetSpec::Empty => json!("empty"),
             SetSpec::Unit => json!("unit"),
@@ -112,7 +112,7 @@ impl SetSpec {
             SetSpec::Open(f) => json!({"open": f.to_json(), "text": f.render()}),
         }
     }
-    fn from_json(v: &Value) -> Result<SetSpec, String> {
+    pub fn from_json(v: &Value) -> Result<SetSpec, String> {
         if let Some(s) = v.as_str() {
             return Ok(if s == "unit" { SetSpec::Unit } else { SetSpec::Empty });
         }
@@ -405,7 +405,7 @@ fn network_in_format(world: &World, format: &str) -> Result<(BooleanNetwork, Str
     }
 }
 
-fn build_set(graph: &SymbolicAsyncGraph, spec: &SetSpec) -> Result<Gcv, String> {
+pub fn build_set(graph: &SymbolicAsyncGraph, spec: &SetSpec) -> Result<Gcv, String> {
     match spec {
         SetSpec::Empty => Ok(graph.mk_empty_colored_vertices()),
         SetSpec::Unit => Ok(graph.mk_unit_colored_vertices()),
@@ -439,7 +439,7 @@ fn build_set(graph: &SymbolicAsyncGraph, spec: &SetSpec) -> Result<Gcv, String> 
     }
 }
 
-fn read_entries(path: &str) -> Result<BTreeMap<String, Vec<u8>>, String> {
+pub fn read_entries(path: &str) -> Result<BTreeMap<String, Vec<u8>>, String> {
     let f = std::fs::File::open(path).map_err(|e| e.to_string())?;
     let mut z = zip::ZipArchive::new(f).map_err(|e| e.to_string())?;
     let mut out = BTreeMap::new();
@@ -454,7 +454,7 @@ fn read_entries(path: &str) -> Result<BTreeMap<String, Vec<u8>>, String> {
     Ok(out)
 }
 
-fn context_names(g: &SymbolicAsyncGraph) -> Vec<String> {
+pub fn context_names(g: &SymbolicAsyncGraph) -> Vec<String> {
     let vs = g.symbolic_context().bdd_variable_set();
     vs.variables().into_iter().map(|v| vs.name_of(v)).collect()
 }
